@@ -370,22 +370,23 @@ def real_key(uri):
     return os.path.realpath(p) if p else uri
 
 
-def check_ranges(res, sb, kind, reply_obj, default_uri, text_of, tainted, ctx_fn):
-    """(b): every reported range lies inside the document it names (LSP rule: start <= end, lines exist; character is clamped by the protocol)."""
+def check_ranges(res, sb, kind, reply_obj, default_uri, text_of, tainted, ctx_fn, foreign_fn=None):
+    """(b): every reported range lies inside the document it names (LSP rule: start <= end, lines exist; character is clamped by the protocol).
+    foreign_fn(uri, diagnostic) -> uri of an imported file that owns the identical diagnostic, or None (recorded known finding, own cause)."""
     def visit(obj, uri):
         if isinstance(obj, dict):
             u = obj.get("uri", uri) if isinstance(obj.get("uri"), str) else uri
             for k, v in obj.items():
                 if k in ("range", "selectionRange", "targetRange", "targetSelectionRange") and isinstance(v, dict) and "start" in v:
                     tu = obj.get("targetUri", u) if k.startswith("target") else u
-                    one(v, tu)
+                    one(v, tu, obj)
                 elif isinstance(v, (dict, list)):
                     visit(v, u)
         elif isinstance(obj, list):
             for v in obj:
                 visit(v, uri)
 
-    def one(r, uri):
+    def one(r, uri, holder):
         res.metric("ranges_checked")
         try:
             sl, sc, el, ec = r["start"]["line"], r["start"]["character"], r["end"]["line"], r["end"]["character"]
@@ -403,7 +404,14 @@ def check_ranges(res, sb, kind, reply_obj, default_uri, text_of, tainted, ctx_fn
         if (sl, sc) > (el, ec):
             res.violate("C20.range-order", kind, "range start after end: %r in %s\n%s" % (r, norm_uri(sb, uri), ctx_fn()))
         elif sl >= len(lines) or el >= len(lines):
-            res.violate("C20.range-line", kind, "range %r names a line outside %s, which has %d line(s)\n%s" % (r, norm_uri(sb, uri), len(lines), ctx_fn()))
+            owner = foreign_fn(uri, holder) if (foreign_fn is not None and kind == "diagnostics" and isinstance(holder.get("message"), str)) else None
+            if owner is not None:
+                res.metric("diagnostic_with_imported_files_position")
+                res.violate("C20.range-line", "imported-file-coordinates", "diagnostic %r published for %s, which has %d line(s): message and range are exactly a diagnostic of the "
+                            "imported file %s - an error inside an import is reported against the importer with the imported file's line and column\n%s" % (
+                                holder, norm_uri(sb, uri), len(lines), norm_uri(sb, owner), ctx_fn()))
+            else:
+                res.violate("C20.range-line", kind, "range %r names a line outside %s, which has %d line(s)\n%s" % (r, norm_uri(sb, uri), len(lines), ctx_fn()))
         else:
             # stricter count, metric only (LSP clamps characters beyond the line end)
             if sc > lsp_client.utf16_len(lines[sl]) or ec > lsp_client.utf16_len(lines[el]) + (1 if (sl, sc + 1) == (el, ec) else 0):
@@ -488,6 +496,44 @@ def execute(world, sb, res):
                 return None
         return None
 
+    def imported_owner(uri, diag, snapshot):
+        """Is `diag` (message and range) exactly a diagnostic of a file that the text of `uri` imports, directly or through other imports?
+        Decided by what the session's server last published for that file or, failing that, by a fresh server opened on it alone."""
+        seen, todo = [], [uri]
+        while todo:
+            u = todo.pop()
+            t = text_of(u, snapshot)
+            pth = lsp_client.uri_to_path(u)
+            if t is None or pth is None:
+                continue
+            for mm in re.finditer(r'import\s*"([^"\\]+)"', t):
+                if mm.group(1).startswith("std/"):
+                    continue
+                tu = lsp_client.path_to_uri(os.path.normpath(os.path.join(os.path.dirname(pth), mm.group(1))))
+                if tu != uri and tu not in seen:
+                    seen.append(tu)
+                    todo.append(tu)
+        same = lambda d: isinstance(d, dict) and d.get("message") == diag.get("message") and d.get("range") == diag.get("range")
+        for tu in seen:
+            if any(same(d) for d in last_diag.get(tu) or []):
+                return tu
+        for tu in seen:
+            t = text_of(tu, snapshot)
+            if t is None:
+                continue
+            fresh = lsp_client.Server(sb, root)
+            try:
+                fresh.initialize(world.get("root_uri", True))
+                fresh.notify("textDocument/didOpen", {"textDocument": {"uri": tu, "languageId": "ucg", "version": 1, "text": t}})
+                fm = fresh.recv()
+                if any(same(d) for d in fm.get("params", {}).get("diagnostics") or []):
+                    return tu
+            except (lsp_client.ServerDied, lsp_client.NoReply):
+                pass
+            finally:
+                fresh.kill()
+        return None
+
     def ctx():
         tail = srv.log[-6:]
         return "mode=%s\nlast wire messages:\n%s\nserver stderr: %s" % (
@@ -535,7 +581,7 @@ def execute(world, sb, res):
                     elif diags:
                         res.violate("C20.close-diagnostics", "close", "didClose must clear the diagnostics, got %r\n%s" % (diags, ctx()))
                     check_ranges(res, sb, "diagnostics", diags, exp["uri"], lambda u, e=exp: (e["text"] if u == e["uri"] and e.get("text") is not None else text_of(u, e.get("texts"))),
-                                 tainted, ctx)
+                                 tainted, ctx, foreign_fn=lambda u, d, e=exp: imported_owner(u, d, dict(e.get("texts") or {}, **({e["uri"]: e["text"]} if e.get("text") is not None else {}))))
                 else:
                     if m.get("id") != exp["id"]:
                         res.violate("C20.no-reply", exp["kind"], "expected the response to request %s (%s), got %s\n%s" % (
